@@ -24,5 +24,9 @@ PROPS = {}
 NOT_BUILT = {}
 
 for _f in sorted(glob.glob(os.path.join(os.path.dirname(__file__), "p_c*.py"))):
-    _m = importlib.import_module("vf." + os.path.basename(_f)[:-3])
-    PROPS[_m.ID] = _m.PROP
+    try:
+        _m = importlib.import_module("vf." + os.path.basename(_f)[:-3])
+        PROPS[_m.ID] = _m.PROP
+    except Exception as _e:  # a broken entry must not take the other properties down
+        import sys
+        print("vf.props: cannot load %s: %r" % (_f, _e), file=sys.stderr)
